@@ -33,6 +33,7 @@ type Spec struct {
 	Reuse          bool               `json:"reuse,omitempty"`
 	RootFragRefs   []string           `json:"root_frag_refs,omitempty"`   // fragment references planted in the root at positions the loader visits whose fragment may not exist in the target
 	ThenResolveOff bool               `json:"then_resolve_off,omitempty"` // afterwards, on the same Loader: switch turned off, root unmarshalled by the caller, ResolveRefsIn(doc, location)
+	Stdin          bool               `json:"stdin,omitempty"`            // root form "reader": through LoadFromStdin (standard input is the simulator's)
 	ElemFragRefs   bool               `json:"elem_frag_refs,omitempty"`   // bare element files may hold fragment-only references ("#/components/...")
 	ThenOther      bool               `json:"then_other,omitempty"`       // switch off: another document of the layout is loaded afterwards as a root of its own on the same Loader
 	ThenMemory     any                `json:"then_memory,omitempty"`      // a document without external references loaded from memory afterwards on the same Loader
@@ -378,6 +379,7 @@ func Gen(seed uint64, prop, tier string) *Spec {
 		}
 	}
 	s.ElemFragRefs = r.Chance(1, 4)
+	s.Stdin = s.RootForm == "reader" && r.Bool()
 	s.Reader = simfw.Pick(r, []string{"func", "func", "default"})
 	s.External = r.Chance(3, 5)
 	s.Reuse = r.Chance(1, 6)
